@@ -169,7 +169,7 @@ impl<'a> DataInput for SliceDataInput<'a> {
     }
 
     fn skip(&mut self, n: usize) -> Result<()> {
-        if self.position + n > self.data.len() {
+        if n > self.remaining() {
             return Err(ZiporaError::io_error("Cannot skip past end of data"));
         }
         self.position += n;
@@ -393,7 +393,7 @@ impl DataInput for MmapDataInput {
     }
 
     fn skip(&mut self, n: usize) -> Result<()> {
-        if self.position + n > self.mmap.len() {
+        if n > self.remaining() {
             return Err(ZiporaError::io_error("Cannot skip past end of data"));
         }
         self.position += n;
